@@ -39,6 +39,8 @@ func checkC05(w *World, r *Report) {
 	r.Rule("R05.5", "every TLS primitive takes its config from the manager", 6)
 	r.Rule("R05.6", "shared-secret key derivation agrees on both ends", 1)
 	r.Rule("R05.8", "a server whose TLS configuration demands client certificates admits no clear-text session", 1)
+	r.Rule("R05.14", "a websocket is dialled without the manager's TLS configuration only where the URL is known not to be a wss one (gorilla falls back to an empty tls.Config)", 1)
+	c05WebsocketTlsDialHasManagerConfig(w, r)
 	r.Rule("R05.13", "no TLS session resumption on the client (a resumed session is not verified against the CA configured now)", 1)
 	ruleNoClientSessionResumption(w, r, "R05.13")
 	r.Rule("R05.12", "the already-encrypted shortcut of the server handshake (no StartTLS, client certificates taken as enforced) is taken only on the listener's own TLS flag, never on peer-supplied data", 5)
